@@ -7,6 +7,7 @@
 import AllianceProofs.Ledger
 import AllianceProofs.FrameDV
 import AllianceProofs.Bank
+import AllianceProofs.AssetsValid
 import AllianceModel.Msg
 set_option linter.unusedVariables false
 namespace Alliance
@@ -123,12 +124,25 @@ end Hoare
 
 /-- the ledger of a state, with offset -/
 def L (off : ValId → Denom → Int) (w : World) : Prop := LedgerO off w.dels w.vals
-/-- the in-memory validator is what the store holds -/
-def Sync (val : AVal) (w : World) : Prop := AL.get w.vals val.id = some val.info
+/-- the in-memory validator carries the delegator-share total the store holds (other fields may lag: the keeper
+    overwrites them from the in-memory copy) -/
+def SyncL (val : AVal) (vals : List (ValId × ValInfo)) : Prop :=
+  ∃ info, AL.get vals val.id = some info ∧ info.totalDelShares = val.info.totalDelShares
+def Sync (val : AVal) (w : World) : Prop := SyncL val w.vals
 
 theorem tdsL_of_sync {val : AVal} {w : World} (h : Sync val w) (d : Denom) :
     tdsL w.vals val.id d = DecCoins.sumOf val.info.totalDelShares d := by
-  unfold tdsL; rw [h]
+  obtain ⟨info, hg, ht⟩ := h
+  unfold tdsL; rw [hg]; simp only []; rw [ht]
+
+theorem sorted_of_sync {off : ValId → Denom → Int} {val : AVal} {w : World} (hl : LedgerO off w.dels w.vals) (h : Sync val w) :
+    DecCoins.Sorted val.info.totalDelShares := by
+  obtain ⟨info, hg, ht⟩ := h
+  rw [← ht]; exact hl.vsorted _ _ hg
+
+theorem sync_set (val : AVal) (vals : List (ValId × ValInfo)) (info : ValInfo) (val' : AVal) (hid : val'.id = val.id)
+    (ht : info.totalDelShares = val'.info.totalDelShares) : SyncL val' (AL.set vals val.id info) :=
+  ⟨info, by rw [hid, AL.get_set_eq], ht⟩
 
 /-- storing an in-memory validator whose delegator-share total is the stored one plus `x` of denom `dx` -/
 theorem L_setValidator {off : ValId → Denom → Int} {w : World} {val : AVal} (info' : ValInfo) (dx : Denom) (x : Int)
@@ -146,29 +160,33 @@ theorem L_setValidator {off : ValId → Denom → Int} {w : World} {val : AVal} 
   · simp only [hv, if_false, false_and]
 
 /-- ledger with offset, an in-memory validator in step with the store, and any fact about the delegation store -/
-def Inv (off : ValId → Denom → Int) (val : AVal) (X : List (DelKey × Delegation) → Prop) (w : World) : Prop :=
-  L off w ∧ Sync val w ∧ X w.dels
+def Inv (off : ValId → Denom → Int) (val : AVal) (X : List (DelKey × Delegation) × List (ValId × ValInfo) → Prop) (w : World) : Prop :=
+  L off w ∧ Sync val w ∧ X (w.dels, w.vals)
+
+/-- a side fact that survives any write to validator `vid`'s record that keeps the delegator-share total `tds` -/
+def StableV (vid : ValId) (tds : DecCoins) (X : List (DelKey × Delegation) × List (ValId × ValInfo) → Prop) : Prop :=
+  ∀ p info, X p → info.totalDelShares = tds → X (p.1, AL.set p.2 vid info)
 
 theorem Inv.frame {off val X} {α} {m : M α} (h : FrameDV.Fr m) : Hoare (Inv off val X) m (fun _ w => Inv off val X w) :=
-  Hoare.ofFrame h (fun p => LedgerO off p.1 p.2 ∧ AL.get p.2 val.id = some val.info ∧ X p.1)
+  Hoare.ofFrame h (fun p => LedgerO off p.1 p.2 ∧ SyncL val p.2 ∧ X p)
 
 macro "dv_frame" : tactic => `(tactic| (first | exact FrameDV.liftE _ | exact FrameDV.pure _ | exact FrameDV.guardE _ _ | (simp only [dvframe]; done)))
 
 /-- storing the in-memory validator with only its reward history changed -/
-theorem Inv.setValidator_hist {off val X} (w : World) (hist : List RewardHistory) (h : Inv off val X w) :
+theorem Inv.setValidator_hist {off val X} (hXv : StableV val.id val.info.totalDelShares X) (w : World) (hist : List RewardHistory) (h : Inv off val X w) :
     Inv off { val with info := { val.info with hist := hist } } X
       { w with vals := AL.set w.vals val.id { val.info with hist := hist } } := by
   obtain ⟨hl, hs, hx⟩ := h
-  refine ⟨?_, ?_, hx⟩
-  · have hsorted : DecCoins.Sorted ({ val.info with hist := hist } : ValInfo).totalDelShares := hl.vsorted val.id val.info hs
+  refine ⟨?_, ?_, hXv _ _ hx rfl⟩
+  · have hsorted : DecCoins.Sorted ({ val.info with hist := hist } : ValInfo).totalDelShares := sorted_of_sync hl hs
     have := L_setValidator (off := off) (val := val) { val.info with hist := hist } 0 0 hl hs hsorted
       (fun d => by simp)
     refine this.conv ?_
     intro v d; simp
-  · show AL.get (AL.set w.vals val.id _) val.id = _
-    rw [AL.get_set_eq]
+  · exact sync_set val w.vals _ _ rfl rfl
 
-theorem addAssetsToRewardPool_inv (off : ValId → Denom → Int) (val : AVal) (X : List (DelKey × Delegation) → Prop) (coins : Coins) :
+theorem addAssetsToRewardPool_inv (off : ValId → Denom → Int) (val : AVal) (X : List (DelKey × Delegation) × List (ValId × ValInfo) → Prop)
+    (hXv : StableV val.id val.info.totalDelShares X) (coins : Coins) :
     Hoare (Inv off val X) (addAssetsToRewardPool val coins)
       (fun val' w => Inv off val' X w ∧ val'.id = val.id ∧ val'.info.totalDelShares = val.info.totalDelShares) := by
   unfold addAssetsToRewardPool
@@ -181,12 +199,13 @@ theorem addAssetsToRewardPool_inv (off : ValId → Denom → Int) (val : AVal) (
     apply Hoare.liftE_bind; intro hist _
     apply Hoare.bind (R := fun _ w => Inv off { val with info := { val.info with hist := hist } } X w)
     · unfold setValidator setValInfo
-      exact Hoare.modifyW _ (fun w h => Inv.setValidator_hist w hist h)
+      exact Hoare.modifyW _ (fun w h => Inv.setValidator_hist hXv w hist h)
     · intro _
       apply Hoare.bind (Inv.frame (by dv_frame)); intro _
       exact Hoare.pure _ (fun w h => ⟨h, rfl, rfl⟩)
 
-theorem claimValidatorRewards_inv (off : ValId → Denom → Int) (val : AVal) (X : List (DelKey × Delegation) → Prop) :
+theorem claimValidatorRewards_inv (off : ValId → Denom → Int) (val : AVal) (X : List (DelKey × Delegation) × List (ValId × ValInfo) → Prop)
+    (hXv : StableV val.id val.info.totalDelShares X) :
     Hoare (Inv off val X) (claimValidatorRewards val)
       (fun val' w => Inv off val' X w ∧ val'.id = val.id ∧ val'.info.totalDelShares = val.info.totalDelShares) := by
   unfold claimValidatorRewards
@@ -199,7 +218,7 @@ theorem claimValidatorRewards_inv (off : ValId → Denom → Int) (val : AVal) (
     apply Hoare.bind (Inv.frame (by dv_frame)); intro coins
     apply Hoare.ite
     · intro _; exact Hoare.pure _ (fun w h => ⟨h, rfl, rfl⟩)
-    · intro _; exact addAssetsToRewardPool_inv off val X coins
+    · intro _; exact addAssetsToRewardPool_inv off val X hXv coins
 
 /-- a record read under a key carries that key, in a ledger state -/
 theorem L.key_of_get {off : ValId → Denom → Int} {w : World} (hl : L off w) {k : DelKey} {dl : Delegation}
@@ -222,11 +241,13 @@ theorem L_setDelegation_same {off : ValId → Denom → Int} {w : World} (dl dl'
   simp only []
   split <;> omega
 
+/-- a side fact that survives a rewrite of the record stored under `key` which keeps its key fields and shares -/
+def StableD (key : DelKey) (X : List (DelKey × Delegation) × List (ValId × ValInfo) → Prop) : Prop :=
+  ∀ p (dl dl2 : Delegation), X p → AL.get p.1 key = some dl → (dl2.del, dl2.val, dl2.denom) = key → dl2.shares = dl.shares →
+    X (AL.set p.1 key dl2, p.2)
+
 theorem claimDelegationRewards_inv (off : ValId → Denom → Int) (del : Acct) (val : AVal) (d' : Denom)
-    (X : List (DelKey × Delegation) → Prop)
-    (hX : ∀ (dels : List (DelKey × Delegation)) (dl dl2 : Delegation), X dels → AL.get dels (dl.del, dl.val, dl.denom) = some dl →
-      dl2.del = dl.del → dl2.val = dl.val → dl2.denom = dl.denom → dl2.shares = dl.shares →
-      X (AL.set dels (dl2.del, dl2.val, dl2.denom) dl2)) :
+    (X : List (DelKey × Delegation) × List (ValId × ValInfo) → Prop) (hXv : StableV val.id val.info.totalDelShares X) (hXd : StableD (del, val.id, d') X) :
     Hoare (Inv off val X) (claimDelegationRewards del val d')
       (fun r w => Inv off r.2 X w ∧ r.2.id = val.id ∧ r.2.info.totalDelShares = val.info.totalDelShares) := by
   unfold claimDelegationRewards
@@ -241,24 +262,1120 @@ theorem claimDelegationRewards_inv (off : ValId → Denom → Int) (del : Acct) 
       · next dl hdl =>
         have hkey := L.key_of_get hP.1 hdl
         -- the record stays where it is while the validator's rewards are claimed
-        refine Hoare.conseq (P' := Inv off val (fun ds => X ds ∧ AL.get ds (del, val.id, d') = some dl))
+        refine Hoare.conseq (P' := Inv off val (fun p => X p ∧ AL.get p.1 (del, val.id, d') = some dl))
           (Q' := fun r w => Inv off r.2 X w ∧ r.2.id = val.id ∧ r.2.info.totalDelShares = val.info.totalDelShares) ?_
           (fun w e => by subst e; exact ⟨hP.1, hP.2.1, hP.2.2, hdl⟩) (fun _ _ q => q)
-        apply Hoare.bind (claimValidatorRewards_inv off val (fun ds => X ds ∧ AL.get ds (del, val.id, d') = some dl))
+        apply Hoare.bind (claimValidatorRewards_inv off val (fun p => X p ∧ AL.get p.1 (del, val.id, d') = some dl)
+          (fun p info h ht => ⟨hXv p info h.1 ht, h.2⟩))
         intro val1
         apply Hoare.getW_bind; intro w1 hP1
         obtain ⟨⟨hl1, hs1, hx1, hg1⟩, hid, htds⟩ := hP1
         apply Hoare.liftE_bind; intro r _
-        rw [hkey] at hg1
+        have hg1' : AL.get w1.dels (dl.del, dl.val, dl.denom) = some dl := by rw [← hkey]; exact hg1
         apply Hoare.bind (R := fun _ w => Inv off val1 X w)
         · unfold setDelegation
           refine Hoare.modifyW _ (fun w e => ?_)
           subst e
           refine ⟨?_, hs1, ?_⟩
-          · exact L_setDelegation_same dl { dl with hist := r.2, lastClaimHeight := w.height } hl1 hg1 rfl rfl rfl rfl
-          · exact hX _ dl { dl with hist := r.2, lastClaimHeight := w.height } hx1 hg1 rfl rfl rfl rfl
+          · exact L_setDelegation_same dl { dl with hist := r.2, lastClaimHeight := w.height } hl1 hg1' rfl rfl rfl rfl
+          · have := hXd (w.dels, w.vals) dl { dl with hist := r.2, lastClaimHeight := w.height } hx1 hg1 hkey.symm rfl
+            show X (AL.set w.dels (dl.del, dl.val, dl.denom) _, w.vals)
+            rw [← hkey]; exact this
         · intro _
           apply Hoare.bind (Inv.frame (by dv_frame)); intro _
           exact Hoare.pure _ (fun w h => ⟨h, hid, htds⟩)
+
+theorem settleBeforeDeposit_inv (off : ValId → Denom → Int) (del : Acct) (val : AVal) (d' : Denom)
+    (X : List (DelKey × Delegation) × List (ValId × ValInfo) → Prop) (hXv : StableV val.id val.info.totalDelShares X) (hXd : StableD (del, val.id, d') X) :
+    Hoare (Inv off val X) (settleBeforeDeposit del val d')
+      (fun val' w => Inv off val' X w ∧ val'.id = val.id ∧ val'.info.totalDelShares = val.info.totalDelShares) := by
+  unfold settleBeforeDeposit
+  apply Hoare.getW_bind; intro w0 hP
+  apply Hoare.at_state hP
+  split
+  · apply Hoare.bind (claimDelegationRewards_inv off del val d' X hXv hXd); intro r
+    exact Hoare.pure _ (fun w h => h)
+  · exact claimValidatorRewards_inv off val X hXv
+
+/-- the offset a deposit of `s` shares into (v0, d0) leaves on the delegation side -/
+def offAt (v0 : ValId) (d0 : Denom) (s : Int) : ValId → Denom → Int := fun v d => if v = v0 ∧ d = d0 then s else 0
+
+/-- `upsertDelegationWithNewTokens`: the position grows by the returned share amount; the ledger holds again as soon as
+    that amount is known to be non-negative (the `DecCoin` constructor checks it a few steps later) -/
+theorem upsert_inv (del : Acct) (val : AVal) (d' : Denom) (amt : Int) (a : Asset) :
+    Hoare (Inv (fun _ _ => 0) val (fun _ => True)) (upsertDelegationWithNewTokens del val d' amt a)
+      (fun s w => (0 ≤ s → L (offAt val.id d' s) w) ∧ Sync val w) := by
+  unfold upsertDelegationWithNewTokens
+  apply Hoare.liftE_bind; intro s _
+  apply Hoare.getW_bind; intro w0 hP
+  obtain ⟨hl, hs, _⟩ := hP
+  dsimp only []
+  split
+  · next hnone =>
+    apply Hoare.bind (R := fun _ w => (0 ≤ s → L (offAt val.id d' s) w) ∧ Sync val w)
+    · unfold setDelegation
+      refine Hoare.modifyW _ (fun w e => ?_)
+      subst e
+      refine ⟨fun hs0 => ?_, hs⟩
+      unfold L at *
+      refine (hl.setDel { del := del, val := val.id, denom := d', shares := s, hist := val.info.hist, lastClaimHeight := w.height } hs0).conv ?_
+      intro v d
+      unfold oldShare offAt shareOf
+      have : AL.get w.dels (del, val.id, d') = none := hnone
+      simp only [this]
+      have e : (val.id = v ∧ d' = d) ↔ (v = val.id ∧ d = d') := ⟨fun ⟨a, b⟩ => ⟨a.symm, b.symm⟩, fun ⟨a, b⟩ => ⟨a.symm, b.symm⟩⟩
+      simp only [e]
+      split <;> omega
+    · intro _; exact Hoare.pure _ (fun w h => h)
+  · next dl hdl =>
+    have hkey := L.key_of_get hl hdl
+    apply Hoare.bind (R := fun _ w => (0 ≤ s → L (offAt val.id d' s) w) ∧ Sync val w)
+    · unfold setDelegation
+      refine Hoare.modifyW _ (fun w e => ?_)
+      subst e
+      refine ⟨fun hs0 => ?_, hs⟩
+      unfold L at *
+      have hnn : 0 ≤ dl.shares := hl.nonneg _ (AL.get_some_mem _ _ _ hdl)
+      have hn2 : 0 ≤ ({ dl with shares := dl.shares + s } : Delegation).shares := by
+        show 0 ≤ dl.shares + s
+        unfold Dec at *; omega
+      refine (hl.setDel { dl with shares := dl.shares + s } hn2).conv ?_
+      intro v d
+      have hk2 : (dl.del, dl.val, dl.denom) = (del, val.id, d') := hkey.symm
+      have hg : AL.get w.dels (dl.del, dl.val, dl.denom) = some dl := by rw [hk2]; exact hdl
+      unfold oldShare offAt shareOf
+      simp only [hg]
+      injection hk2 with _ h2
+      injection h2 with h2 h3
+      rw [h2, h3]
+      have e : (val.id = v ∧ d' = d) ↔ (v = val.id ∧ d = d') := ⟨fun ⟨a, b⟩ => ⟨a.symm, b.symm⟩, fun ⟨a, b⟩ => ⟨a.symm, b.symm⟩⟩
+      simp only [e]
+      split <;> (unfold Dec at *; omega)
+    · intro _; exact Hoare.pure _ (fun w h => h)
+
+theorem updateValidatorShares_add_eq (val : AVal) (ds vs : DecCoins) (w : World) :
+    updateValidatorShares val ds vs true w =
+      (.ok { val with info := { val.info with totalDelShares := DecCoins.add val.info.totalDelShares ds,
+                                              valShares := DecCoins.add val.info.valShares vs } },
+       { w with vals := AL.set w.vals val.id { val.info with totalDelShares := DecCoins.add val.info.totalDelShares ds,
+                                                             valShares := DecCoins.add val.info.valShares vs } }) := by
+  unfold updateValidatorShares
+  simp only [if_true, bind_apply, Pure.pure, Except.pure, liftE_ok, setValidator, setValInfo, modifyW_apply, pure_apply]
+  rfl
+
+/-- adding `s` delegator shares of `d'` to the in-memory validator and storing it -/
+theorem updateValidatorShares_add_inv (off : ValId → Denom → Int) (val : AVal) (d' : Denom) (s : Dec) (vs : DecCoins) :
+    Hoare (fun w => L off w ∧ Sync val w) (updateValidatorShares val (DecCoins.single d' s) vs true)
+      (fun val' w => L (fun v d => off v d - offAt val.id d' s v d) w ∧ Sync val' w ∧ val'.id = val.id) := by
+  constructor
+  intro w w' val' hm hP
+  obtain ⟨hl, hs⟩ := hP
+  rw [updateValidatorShares_add_eq] at hm
+  injection hm with h1 h2
+  injection h1 with h1
+  subst h1 h2
+  refine ⟨?_, ?_, rfl⟩
+  · have hsorted : DecCoins.Sorted (DecCoins.add val.info.totalDelShares (DecCoins.single d' s)) :=
+      DecCoins.add_sorted _ _ (sorted_of_sync hl hs) (DecCoins.sorted_single d' s)
+    have := L_setValidator (off := off) (val := val)
+      { val.info with totalDelShares := DecCoins.add val.info.totalDelShares (DecCoins.single d' s),
+                      valShares := DecCoins.add val.info.valShares vs } d' s hl hs hsorted
+      (fun d => by show DecCoins.sumOf (DecCoins.add _ _) d = _; rw [DecCoins.sumOf_add, DecCoins.sumOf_single])
+    refine this.conv ?_
+    intro v d
+    unfold offAt
+    have e : (v = val.id ∧ d' = d) ↔ (v = val.id ∧ d = d') := ⟨fun ⟨a, b⟩ => ⟨a, b.symm⟩, fun ⟨a, b⟩ => ⟨a, b.symm⟩⟩
+    simp only [e]
+  · exact sync_set val w.vals _ _ rfl rfl
+
+abbrev L0 : World → Prop := L (fun _ _ => 0)
+abbrev Inv0 (val : AVal) : World → Prop := Inv (fun _ _ => 0) val (fun _ => True)
+
+theorem mkDecCoins_ok (d : Denom) (x : Dec) (c : DecCoins) (h : mkDecCoins d x = .ok c) : 0 ≤ x ∧ c = DecCoins.single d x := by
+  unfold mkDecCoins at h
+  split at h
+  · cases h
+  · injection h with h; exact ⟨by unfold Dec at *; omega, h.symm⟩
+
+/-- the part of the state the ledger reads, after a deposit of `s` shares has reached the position but not yet the validator -/
+def Mid (val : AVal) (d' : Denom) (s : Dec) (w : World) : Prop := (0 ≤ s → L (offAt val.id d' s) w) ∧ Sync val w
+
+theorem Mid.frame {val d' s} {α} {m : M α} (h : FrameDV.Fr m) : Hoare (Mid val d' s) m (fun _ w => Mid val d' s w) :=
+  Hoare.ofFrame h (fun p => (0 ≤ s → LedgerO (offAt val.id d' s) p.1 p.2) ∧ SyncL val p.2)
+
+/-- C03: `Delegate` keeps the delegator-share ledger -/
+theorem delegate_ledger (del : Acct) (val : AVal) (d' : Denom) (amt : Int) :
+    Hoare (Inv0 val) (delegate del val d' amt) (fun _ w => L0 w) := by
+  unfold delegate
+  apply Hoare.getW_bind; intro w0 hP
+  apply Hoare.at_state hP
+  split
+  · exact Hoare.throwE _
+  · next a _ =>
+    apply Hoare.bind (Inv.frame (by dv_frame)); intro _
+    apply Hoare.bind (settleBeforeDeposit_inv _ del val d' (fun _ => True) (fun _ _ _ _ => trivial) (fun _ _ _ _ _ _ _ => trivial)); intro val1
+    apply Hoare.bind (R := fun s w => Mid val1 d' s w)
+    · exact (upsert_inv del val1 d' amt a).conseq (fun w h => h.1) (fun _ _ q => q)
+    · intro s
+      apply Hoare.bind (Mid.frame (by dv_frame)); intro nvs
+      apply Hoare.bind (Mid.frame (by dv_frame)); intro _
+      apply Hoare.liftE_bind; intro dsc hdsc
+      obtain ⟨hs0, rfl⟩ := mkDecCoins_ok d' s dsc hdsc
+      apply Hoare.bind (Mid.frame (by dv_frame)); intro vsc
+      apply Hoare.bind (R := fun _ w => L0 w)
+      · refine (updateValidatorShares_add_inv (offAt val1.id d' s) val1 d' s vsc).conseq
+          (fun w h => ⟨h.1 hs0, h.2⟩) (fun _ w q => ?_)
+        exact q.1.conv (fun v d => by omega)
+      · intro _
+        exact Hoare.ofFrame (by dv_frame) (fun p => LedgerO (fun _ _ => 0) p.1 p.2)
+
+/-- what `ValidateDelegatedAmount` returns is at most the position's shares -/
+theorem validated_le (dlShares : Dec) (amt : Int) (info : ValInfo) (a : Asset) (s : Dec)
+    (h : validateDelegatedAmount dlShares amt info a = .ok s) : s ≤ dlShares := by
+  unfold validateDelegatedAmount at h
+  cases hd : delegationSharesFromTokens info a amt with
+  | error e => rw [hd] at h; simp only [bind, Except.bind] at h; cases h
+  | ok s0 =>
+    rw [hd] at h
+    simp only [bind, Except.bind] at h
+    split at h
+    · injection h with h; subst h; exact Int.le_refl _
+    · split at h
+      · cases h
+      · split at h
+        · injection h with h; subst h; exact Int.le_refl _
+        · next hgt =>
+          simp only [Pure.pure, Except.pure] at h
+          injection h with h; subst h
+          unfold Dec at *; omega
+
+/-- taking `x` shares off the position stored under (del, v, d') -/
+theorem reduceDelegationShares_inv (del : Acct) (v : ValId) (d' : Denom) (x : Dec) (dl : Delegation) (val : AVal) :
+    Hoare (fun w => L0 w ∧ Sync val w ∧ AL.get w.dels (del, v, d') = some dl ∧ x ≤ dl.shares)
+      (reduceDelegationShares del v d' x dl)
+      (fun _ w => L (fun v2 d => - offAt v d' x v2 d) w ∧ Sync val w) := by
+  constructor
+  intro w w' u hm hP
+  obtain ⟨hl, hs, hg, hxle⟩ := hP
+  have hkey := L.key_of_get hl hg
+  injection hkey with k1 k23
+  injection k23 with k2 k3
+  unfold reduceDelegationShares at hm
+  try dsimp only [] at hm
+  have hold : ∀ v2 d, oldShare w.dels (del, v, d') v2 d = offAt v d' dl.shares v2 d := by
+    intro v2 d
+    unfold oldShare offAt shareOf
+    rw [hg]
+    simp only []
+    rw [← k2, ← k3]
+    have e : (v = v2 ∧ d' = d) ↔ (v2 = v ∧ d = d') := ⟨fun ⟨a, b⟩ => ⟨a.symm, b.symm⟩, fun ⟨a, b⟩ => ⟨a.symm, b.symm⟩⟩
+    simp only [e]
+  by_cases h0 : dl.shares - x = 0
+  · simp only [h0, if_true, deleteDelegation, modifyW_apply] at hm
+    injection hm with _ h2
+    subst h2
+    refine ⟨?_, hs⟩
+    unfold L at *
+    refine (hl.eraseDel (del, v, d')).conv ?_
+    intro v2 d
+    rw [hold]
+    unfold offAt
+    split <;> (unfold Dec at *; omega)
+  · simp only [h0, if_false, setDelegation, modifyW_apply] at hm
+    injection hm with _ h2
+    subst h2
+    refine ⟨?_, hs⟩
+    unfold L at *
+    have hn : 0 ≤ ({ dl with del := del, val := v, denom := d', shares := dl.shares - x } : Delegation).shares := by
+      show 0 ≤ dl.shares - x
+      unfold Dec at *; omega
+    refine (hl.setDel { dl with del := del, val := v, denom := d', shares := dl.shares - x } hn).conv ?_
+    intro v2 d
+    show 0 + shareOf v2 d _ - oldShare w.dels (del, v, d') v2 d = _
+    rw [hold]
+    unfold offAt shareOf
+    simp only []
+    have e : (v = v2 ∧ d' = d) ↔ (v2 = v ∧ d = d') := ⟨fun ⟨a, b⟩ => ⟨a.symm, b.symm⟩, fun ⟨a, b⟩ => ⟨a.symm, b.symm⟩⟩
+    simp only [e]
+    split <;> (unfold Dec at *; omega)
+
+/-- taking `x` delegator shares of `d'` off the in-memory validator (no overdraft) and storing it -/
+theorem updateValidatorShares_sub_inv (off : ValId → Denom → Int) (val : AVal) (d' : Denom) (x : Dec) (vs : DecCoins)
+    (hx : x ≠ 0 → x ≤ DecCoins.amountOf val.info.totalDelShares d') :
+    Hoare (fun w => L off w ∧ Sync val w) (updateValidatorShares val (DecCoins.single d' x) vs false)
+      (fun val' w => L (fun v d => off v d + offAt val.id d' x v d) w ∧ Sync val' w ∧ val'.id = val.id) := by
+  constructor
+  intro w w' val' hm hP
+  obtain ⟨hl, hs⟩ := hP
+  unfold updateValidatorShares at hm
+  simp only [Bool.false_eq_true, if_false, bind_apply] at hm
+  cases h1 : subtractDecCoinsWithRounding val.info.totalDelShares (DecCoins.single d' x) with
+  | error e => rw [h1] at hm; simp [bind, Except.bind, liftE_error] at hm
+  | ok t1 =>
+    cases h2 : subtractDecCoinsWithRounding val.info.valShares vs with
+    | error e => rw [h1, h2] at hm; simp [bind, Except.bind, liftE_error] at hm
+    | ok t2 =>
+      rw [h1, h2] at hm
+      simp only [bind, Except.bind, Pure.pure, Except.pure, liftE_ok, setValidator, setValInfo, modifyW_apply, pure_apply] at hm
+      injection hm with h3 h4
+      injection h3 with h3
+      subst h3 h4
+      obtain ⟨hsum, hsort⟩ := subtract_single_exact _ d' x t1 h1 hx
+      refine ⟨?_, ?_, rfl⟩
+      · have := L_setValidator (off := off) (val := val)
+          { val.info with totalDelShares := t1, valShares := t2 } d' (-x) hl hs (hsort (sorted_of_sync hl hs))
+          (fun d => by show DecCoins.sumOf t1 d = _; rw [hsum d]; split <;> omega)
+        refine this.conv ?_
+        intro v d
+        unfold offAt
+        have e : (v = val.id ∧ d' = d) ↔ (v = val.id ∧ d = d') := ⟨fun ⟨a, b⟩ => ⟨a, b.symm⟩, fun ⟨a, b⟩ => ⟨a, b.symm⟩⟩
+        simp only [e]
+        split <;> omega
+      · exact sync_set val w.vals _ _ rfl rfl
+
+theorem AL_get_mapVal {κ α β : Type} [DecidableEq κ] (l : List (κ × α)) (f : α → β) (k : κ) :
+    AL.get (l.map fun p => (p.1, f p.2)) k = (AL.get l k).map f := by
+  induction l with
+  | nil => rfl
+  | cons hd t ih =>
+    obtain ⟨k', v'⟩ := hd
+    simp only [List.map_cons, AL.get_cons]
+    by_cases h : k = k'
+    · simp only [h, if_true, Option.map_some]
+    · simp only [h, if_false]; exact ih
+
+/-- rewriting every validator record without touching its delegator-share total keeps the ledger -/
+theorem L_mapVals {off : ValId → Denom → Int} {w : World} (f : ValInfo → ValInfo)
+    (hf : ∀ i, (f i).totalDelShares = i.totalDelShares) (hl : L off w) :
+    L off { w with vals := w.vals.map fun p => (p.1, f p.2) } := by
+  unfold L at *
+  refine ⟨hl.dsorted, hl.keyed, hl.nonneg, ?_, ?_⟩
+  · intro v info hv
+    rw [AL_get_mapVal] at hv
+    cases hg : AL.get w.vals v with
+    | none => rw [hg] at hv; cases hv
+    | some i =>
+      rw [hg] at hv
+      simp only [Option.map_some] at hv
+      injection hv with hv
+      rw [← hv, hf]; exact hl.vsorted v i hg
+  · intro v d
+    rw [hl.sums v d]
+    unfold tdsL
+    rw [AL_get_mapVal]
+    cases AL.get w.vals v with
+    | none => rfl
+    | some i => simp only [Option.map_some, hf]
+
+theorem resetAssetAndValidators_inv (off : ValId → Denom → Int) (a : Asset) :
+    Hoare (fun w => L off w) (resetAssetAndValidators a) (fun _ w => L off w) := by
+  unfold resetAssetAndValidators
+  apply Hoare.ite
+  · intro _; exact Hoare.pure _ (fun w h => h)
+  · intro _
+    apply Hoare.bind (R := fun _ w => L off w)
+    · refine Hoare.modifyW _ (fun w h => ?_)
+      exact L_mapVals (fun info => { info with valShares := info.valShares.filter fun c => c.1 ≠ a.denom }) (fun _ => rfl) h
+    · intro _
+      exact Hoare.ofFrame (by dv_frame) (fun p => LedgerO off p.1 p.2)
+
+theorem clearDustShares_inv (del : Acct) (val : AVal) (a : Asset) :
+    Hoare (fun w => L0 w ∧ Sync val w) (clearDustShares del val a)
+      (fun x w => L (fun v d => - offAt val.id a.denom x v d) w ∧ Sync val w ∧ 0 ≤ x ∧
+        (x ≠ 0 → x ≤ DecCoins.amountOf val.info.totalDelShares a.denom)) := by
+  unfold clearDustShares
+  apply Hoare.getW_bind; intro w0 hP
+  obtain ⟨hl, hs⟩ := hP
+  have hzero : ∀ w, w = w0 → L (fun v d => - offAt val.id a.denom 0 v d) w ∧ Sync val w ∧ (0:Dec) ≤ 0 ∧
+      ((0:Dec) ≠ 0 → (0:Dec) ≤ DecCoins.amountOf val.info.totalDelShares a.denom) := by
+    intro w e; subst e
+    refine ⟨hl.conv (fun v d => by unfold offAt; split <;> rfl), hs, Int.le_refl 0, fun h => absurd rfl h⟩
+  split
+  · exact Hoare.pure _ hzero
+  · next dl2 hdl =>
+    have hkey := L.key_of_get hl hdl
+    injection hkey with k1 k23
+    injection k23 with k2 k3
+    apply Hoare.liftE_bind; intro left _
+    apply Hoare.ite
+    · intro _
+      have hnn : 0 ≤ dl2.shares := hl.nonneg _ (AL.get_some_mem _ _ _ hdl)
+      have hle : dl2.shares ≠ 0 → dl2.shares ≤ DecCoins.amountOf val.info.totalDelShares a.denom := by
+        intro _
+        have h1 := LedgerO.share_le_total hl _ dl2 hdl
+        rw [← k2, ← k3, tdsL_of_sync hs] at h1
+        rw [DecCoins.amountOf_eq_sumOf _ (sorted_of_sync hl hs)]
+        exact h1
+      apply Hoare.bind (R := fun _ w => L (fun v d => - offAt val.id a.denom dl2.shares v d) w ∧ Sync val w)
+      · unfold deleteDelegation
+        refine Hoare.modifyW _ (fun w e => ?_)
+        subst e
+        refine ⟨?_, hs⟩
+        unfold L at *
+        rw [← k1]
+        refine (hl.eraseDel (del, val.id, a.denom)).conv ?_
+        intro v d
+        unfold oldShare
+        have hg : AL.get w.dels (del, val.id, a.denom) = some dl2 := hdl
+        rw [hg]
+        unfold offAt shareOf
+        simp only []
+        rw [← k2, ← k3]
+        have e : (val.id = v ∧ a.denom = d) ↔ (v = val.id ∧ d = a.denom) := ⟨fun ⟨x, y⟩ => ⟨x.symm, y.symm⟩, fun ⟨x, y⟩ => ⟨x.symm, y.symm⟩⟩
+        simp only [e]
+        split <;> omega
+      · intro _
+        apply Hoare.bind (Hoare.ofFrame (by dv_frame) (fun p => LedgerO (fun v d => - offAt val.id a.denom dl2.shares v d) p.1 p.2 ∧ SyncL val p.2)); intro _
+        exact Hoare.pure _ (fun w h => ⟨h.1, h.2, hnn, hle⟩)
+    · intro _; exact Hoare.pure _ hzero
+
+/-- `ClearDustDelegation` keeps the ledger: what it deletes from the delegations it takes off the validator's total -/
+theorem clearDustDelegation_inv (del : Acct) (val : AVal) (a : Asset) :
+    Hoare (fun w => L0 w ∧ Sync val w) (clearDustDelegation del val a) (fun _ w => L0 w) := by
+  unfold clearDustDelegation
+  apply Hoare.bind (clearDustShares_inv del val a); intro x
+  dsimp only []
+  apply Hoare.liftE_bind; intro dsc hdsc
+  -- the facts about x travel as part of the precondition
+  refine Hoare.conseq (P' := fun w => (L (fun v d => - offAt val.id a.denom x v d) w ∧ Sync val w) ∧ 0 ≤ x ∧
+      (x ≠ 0 → x ≤ DecCoins.amountOf val.info.totalDelShares a.denom)) (Q' := fun _ w => L0 w) ?_
+    (fun w h => ⟨⟨h.1, h.2.1⟩, h.2.2.1, h.2.2.2⟩) (fun _ _ q => q)
+  obtain ⟨_, rfl⟩ := mkDecCoins_ok a.denom x dsc hdsc
+  apply Hoare.liftE_bind; intro vsc _
+  apply Hoare.liftE_bind; intro tds htds
+  apply Hoare.liftE_bind; intro vs _
+  apply Hoare.bind (R := fun _ w => L0 w)
+  · unfold setValidator setValInfo
+    refine Hoare.modifyW _ (fun w h => ?_)
+    obtain ⟨⟨hl, hs⟩, hx0, hxle⟩ := h
+    obtain ⟨hsum, hsort⟩ := subtract_single_exact _ a.denom x tds htds hxle
+    have := L_setValidator (off := fun v d => - offAt val.id a.denom x v d) (val := val)
+      { val.info with totalDelShares := tds, valShares := vs } a.denom (-x) hl hs (hsort (sorted_of_sync hl hs))
+      (fun d => by show DecCoins.sumOf tds d = _; rw [hsum d]; split <;> omega)
+    refine this.conv ?_
+    intro v d
+    unfold offAt
+    have e : (v = val.id ∧ a.denom = d) ↔ (v = val.id ∧ d = a.denom) := ⟨fun ⟨p, q⟩ => ⟨p, q.symm⟩, fun ⟨p, q⟩ => ⟨p, q.symm⟩⟩
+    simp only [e]
+    split <;> omega
+  · intro _; exact resetAssetAndValidators_inv _ a
+
+/-- the facts `Undelegate`/`Redelegate` need about the source position, as a predicate of the two stores -/
+def SrcInv (val : AVal) (key : DelKey) (dl : Delegation) (p : List (DelKey × Delegation) × List (ValId × ValInfo)) : Prop :=
+  LedgerO (fun _ _ => 0) p.1 p.2 ∧ SyncL val p.2 ∧ AL.get p.1 key = some dl
+
+theorem isSome_set_keep (dels : List (DelKey × Delegation)) (key : DelKey) (dl dl2 : Delegation)
+    (h : (AL.get dels key).isSome = true) : (AL.get (AL.set dels (dl2.del, dl2.val, dl2.denom) dl2) key).isSome = true := by
+  by_cases e : key = (dl2.del, dl2.val, dl2.denom)
+  · rw [e, AL.get_set_eq]; rfl
+  · rw [AL.get_set_ne _ _ _ _ e]; exact h
+
+/-- how much of a stored position may be taken off its validator's total without overdraft -/
+theorem take_le_total {w : World} {val : AVal} {del : Acct} {d' : Denom} {dl : Delegation} {x : Dec}
+    (hl : L0 w) (hs : Sync val w) (hg : AL.get w.dels (del, val.id, d') = some dl) (hx : x ≤ dl.shares) :
+    x ≤ DecCoins.amountOf val.info.totalDelShares d' := by
+  have hkey := L.key_of_get hl hg
+  injection hkey with k1 k23
+  injection k23 with k2 k3
+  have h1 := LedgerO.share_le_total hl _ dl hg
+  rw [← k2, ← k3, tdsL_of_sync hs] at h1
+  rw [DecCoins.amountOf_eq_sumOf _ (sorted_of_sync hl hs)]
+  unfold Dec at *; omega
+
+/-- C03: `Undelegate` keeps the delegator-share ledger -/
+theorem undelegate_ledger (del : Acct) (val : AVal) (d' : Denom) (amt : Int) :
+    Hoare (Inv0 val) (undelegate del val d' amt) (fun _ w => L0 w) := by
+  unfold undelegate
+  apply Hoare.getW_bind; intro w0 hP
+  split
+  · exact Hoare.throwE _
+  · next a _ =>
+    apply Hoare.guardE_bind; intro hsome
+    have hsome' : (AL.get w0.dels (del, val.id, d')).isSome = true := by
+      unfold getDelegation at hsome
+      cases h : AL.get w0.dels (del, val.id, d') with
+      | none => rw [h] at hsome; simp at hsome
+      | some _ => rfl
+    refine Hoare.conseq (P' := Inv (fun _ _ => 0) val (fun p => (AL.get p.1 (del, val.id, d')).isSome = true))
+      (Q' := fun _ w => L0 w) ?_ (fun w e => by subst e; exact ⟨hP.1, hP.2.1, hsome'⟩) (fun _ _ q => q)
+    apply Hoare.bind (claimDelegationRewards_inv _ del val d' _ (fun p info h _ => h)
+      (fun p dl dl2 hx _ hk _ => by show (AL.get (AL.set p.1 _ dl2) _).isSome = true; rw [AL.get_set_eq]; rfl)); intro r
+    apply Hoare.getW_bind; intro w1 hP1
+    obtain ⟨⟨hl1, hs1, hx1⟩, hid, _⟩ := hP1
+    dsimp only []
+    rw [← hid] at hx1
+    cases hdl : AL.get w1.dels (del, r.2.id, d') with
+    | none => rw [hdl] at hx1; cases hx1
+    | some dl =>
+      have hgd : getDelegation w1 del r.2.id d' = some dl := hdl
+      rw [hgd]
+      simp only [Option.getD_some]
+      apply Hoare.liftE_bind; intro stu hstu
+      have hle := validated_le _ _ _ _ _ hstu
+      have htake : stu ≠ 0 → stu ≤ DecCoins.amountOf r.2.info.totalDelShares d' := fun _ => take_le_total hl1 hs1 hdl hle
+      apply Hoare.liftE_bind; intro ctu _
+      apply Hoare.guardE_bind; intro _
+      apply Hoare.liftE_bind; intro vstr _
+      refine Hoare.conseq (P' := fun w => SrcInv r.2 (del, r.2.id, d') dl (w.dels, w.vals)) (Q' := fun _ w => L0 w) ?_
+        (fun w e => by subst e; exact ⟨hl1, hs1, hdl⟩) (fun _ _ q => q)
+      apply Hoare.bind (Hoare.ofFrame (by dv_frame) (SrcInv r.2 (del, r.2.id, d') dl)); intro _
+      apply Hoare.bind (R := fun _ w => L (fun v2 d => - offAt r.2.id d' stu v2 d) w ∧ Sync r.2 w)
+      · exact (reduceDelegationShares_inv del r.2.id d' stu dl r.2).conseq (fun w h => ⟨h.1, h.2.1, h.2.2, hle⟩) (fun _ _ q => q)
+      · intro _
+        apply Hoare.liftE_bind; intro dsc hdsc
+        obtain ⟨_, rfl⟩ := mkDecCoins_ok d' stu dsc hdsc
+        apply Hoare.liftE_bind; intro vsc _
+        apply Hoare.bind (R := fun val2 w => L0 w ∧ Sync val2 w)
+        · refine (updateValidatorShares_sub_inv _ r.2 d' stu vsc htake).conseq (fun w h => h) (fun _ w q => ⟨?_, q.2.1⟩)
+          exact q.1.conv (fun v d => by omega)
+        · intro val2
+          apply Hoare.bind (clearDustDelegation_inv del val2 _); intro _
+          apply Hoare.bind (Hoare.ofFrame (by dv_frame) (fun p => LedgerO (fun _ _ => 0) p.1 p.2)); intro _
+          exact Hoare.ofFrame (by dv_frame) (fun p => LedgerO (fun _ _ => 0) p.1 p.2)
+
+/-! ### a second in-memory validator stays in step while the first one is written -/
+
+theorem Hoare.and {α} {P1 P2 : World → Prop} {m : M α} {Q1 Q2 : α → World → Prop}
+    (h1 : Hoare P1 m Q1) (h2 : Hoare P2 m Q2) : Hoare (fun w => P1 w ∧ P2 w) m (fun a w => Q1 a w ∧ Q2 a w) :=
+  ⟨fun w w' a hm hw => ⟨h1.run w w' a hm hw.1, h2.run w w' a hm hw.2⟩⟩
+
+theorem syncL_set_other {dst : AVal} {vals : List (ValId × ValInfo)} (vid : ValId) (info : ValInfo) (hne : dst.id ≠ vid)
+    (h : SyncL dst vals) : SyncL dst (AL.set vals vid info) := by
+  obtain ⟨i, hg, ht⟩ := h
+  exact ⟨i, by rw [AL.get_set_ne _ _ _ _ hne]; exact hg, ht⟩
+
+theorem syncL_map {dst : AVal} {vals : List (ValId × ValInfo)} (f : ValInfo → ValInfo)
+    (hf : ∀ i, (f i).totalDelShares = i.totalDelShares) (h : SyncL dst vals) :
+    SyncL dst (vals.map fun p => (p.1, f p.2)) := by
+  obtain ⟨i, hg, ht⟩ := h
+  exact ⟨f i, by rw [AL_get_mapVal, hg]; rfl, by rw [hf]; exact ht⟩
+
+/-- `Sync dst` as a predicate of the stores, for the frame rule -/
+theorem Sync.frame {dst : AVal} {α} {m : M α} (h : FrameDV.Fr m) : Hoare (Sync dst) m (fun _ w => Sync dst w) :=
+  Hoare.ofFrame h (fun p => SyncL dst p.2)
+
+theorem setValidator_sync (dst val : AVal) (hne : dst.id ≠ val.id) : Hoare (Sync dst) (setValidator val) (fun _ w => Sync dst w) := by
+  unfold setValidator setValInfo
+  exact Hoare.modifyW _ (fun w h => syncL_set_other val.id val.info hne h)
+
+theorem setDelegation_sync (dst : AVal) (dl : Delegation) : Hoare (Sync dst) (setDelegation dl) (fun _ w => Sync dst w) := by
+  unfold setDelegation; exact Hoare.modifyW _ (fun w h => h)
+theorem deleteDelegation_sync (dst : AVal) (del : Acct) (v : ValId) (d : Denom) :
+    Hoare (Sync dst) (deleteDelegation del v d) (fun _ w => Sync dst w) := by
+  unfold deleteDelegation; exact Hoare.modifyW _ (fun w h => h)
+
+theorem reduceDelegationShares_sync (dst : AVal) (del : Acct) (v : ValId) (d : Denom) (x : Dec) (dl : Delegation) :
+    Hoare (Sync dst) (reduceDelegationShares del v d x dl) (fun _ w => Sync dst w) := by
+  unfold reduceDelegationShares
+  dsimp only []
+  split
+  · exact deleteDelegation_sync dst del v d
+  · exact setDelegation_sync dst _
+
+theorem updateValidatorShares_sync (dst val : AVal) (ds vs : DecCoins) (isAdd : Bool) (hne : dst.id ≠ val.id) :
+    Hoare (Sync dst) (updateValidatorShares val ds vs isAdd) (fun _ w => Sync dst w) := by
+  unfold updateValidatorShares
+  apply Hoare.liftE_bind; intro info' _
+  dsimp only []
+  apply Hoare.bind (setValidator_sync dst { val with info := info' } hne); intro _
+  exact Hoare.pure _ (fun w h => h)
+
+theorem resetAssetAndValidators_sync (dst : AVal) (a : Asset) :
+    Hoare (Sync dst) (resetAssetAndValidators a) (fun _ w => Sync dst w) := by
+  unfold resetAssetAndValidators
+  apply Hoare.ite
+  · intro _; exact Hoare.pure _ (fun w h => h)
+  · intro _
+    apply Hoare.bind (R := fun _ w => Sync dst w)
+    · refine Hoare.modifyW _ (fun w h => ?_)
+      exact syncL_map (fun info => { info with valShares := info.valShares.filter fun c => c.1 ≠ a.denom }) (fun _ => rfl) h
+    · intro _; exact Sync.frame (by dv_frame)
+
+theorem clearDustDelegation_sync (dst : AVal) (del : Acct) (val : AVal) (a : Asset) (hne : dst.id ≠ val.id) :
+    Hoare (Sync dst) (clearDustDelegation del val a) (fun _ w => Sync dst w) := by
+  unfold clearDustDelegation
+  apply Hoare.bind (R := fun _ w => Sync dst w)
+  · unfold clearDustShares
+    apply Hoare.getW_bind; intro w0 hP
+    apply Hoare.at_state hP
+    split
+    · exact Hoare.pure _ (fun w h => h)
+    · apply Hoare.liftE_bind; intro _ _
+      apply Hoare.ite
+      · intro _
+        apply Hoare.bind (deleteDelegation_sync dst _ _ _); intro _
+        apply Hoare.bind (Sync.frame (by dv_frame)); intro _
+        exact Hoare.pure _ (fun w h => h)
+      · intro _; exact Hoare.pure _ (fun w h => h)
+  · intro x
+    dsimp only []
+    apply Hoare.bind (Sync.frame (by dv_frame)); intro _
+    apply Hoare.bind (Sync.frame (by dv_frame)); intro _
+    apply Hoare.bind (Sync.frame (by dv_frame)); intro tds
+    apply Hoare.bind (Sync.frame (by dv_frame)); intro vs
+    apply Hoare.bind (setValidator_sync dst { val with info := { val.info with totalDelShares := tds, valShares := vs } } hne); intro _
+    exact resetAssetAndValidators_sync dst a
+
+/-- C03: `Redelegate` keeps the delegator-share ledger -/
+theorem redelegate_ledger (del : Acct) (src dst : AVal) (d' : Denom) (amt : Int) :
+    Hoare (fun w => L0 w ∧ Sync src w ∧ Sync dst w) (redelegate del src dst d' amt) (fun _ w => L0 w) := by
+  unfold redelegate
+  apply Hoare.guardE_bind; intro hne
+  have hne1 : dst.id ≠ src.id := fun e => hne e.symm
+  apply Hoare.getW_bind; intro w0 hP
+  obtain ⟨hl0, hs0, hd0⟩ := hP
+  split
+  · exact Hoare.throwE _
+  · next a _ =>
+    apply Hoare.guardE_bind; intro hsome
+    have hsome' : (AL.get w0.dels (del, src.id, d')).isSome = true := by
+      unfold getDelegation at hsome
+      cases h : AL.get w0.dels (del, src.id, d') with
+      | none => rw [h] at hsome; simp at hsome
+      | some _ => rfl
+    refine Hoare.conseq (P' := Inv (fun _ _ => 0) src (fun p => (AL.get p.1 (del, src.id, d')).isSome = true ∧ SyncL dst p.2))
+      (Q' := fun _ w => L0 w) ?_ (fun w e => by subst e; exact ⟨hl0, hs0, hsome', hd0⟩) (fun _ _ q => q)
+    apply Hoare.bind (claimDelegationRewards_inv _ del src d' _
+      (fun p info h _ => ⟨h.1, syncL_set_other src.id info hne1 h.2⟩)
+      (fun p dl dl2 hx _ hk _ => ⟨by show (AL.get (AL.set p.1 _ dl2) _).isSome = true; rw [AL.get_set_eq]; rfl, hx.2⟩)); intro r
+    apply Hoare.getW_bind; intro w1 hP1
+    obtain ⟨⟨hl1, hs1, hx1, hd1⟩, hid, _⟩ := hP1
+    dsimp only []
+    rw [← hid] at hx1
+    have hne2 : r.2.id ≠ dst.id := by rw [hid]; exact hne
+    cases hdl : AL.get w1.dels (del, r.2.id, d') with
+    | none => rw [hdl] at hx1; cases hx1
+    | some srcDl =>
+      have hgd : getDelegation w1 del r.2.id d' = some srcDl := hdl
+      rw [hgd]
+      simp only [Option.getD_some]
+      -- settle the destination; the source position and the source validator stay as they are
+      refine Hoare.conseq (P' := Inv (fun _ _ => 0) dst (fun p => AL.get p.1 (del, r.2.id, d') = some srcDl ∧ SyncL r.2 p.2))
+        (Q' := fun _ w => L0 w) ?_ (fun w e => by subst e; exact ⟨hl1, hd1, hdl, hs1⟩) (fun _ _ q => q)
+      apply Hoare.bind (settleBeforeDeposit_inv _ del dst d' _
+        (fun p info h _ => ⟨h.1, syncL_set_other dst.id info hne2 h.2⟩)
+        (fun p dl dl2 hx _ hk _ => ⟨by
+          show AL.get (AL.set p.1 _ dl2) _ = _
+          rw [AL.get_set_ne _ _ _ _ (fun e => hne2 (by injection e with _ e2; injection e2))]; exact hx.1, hx.2⟩)); intro dst1
+      apply Hoare.liftE_bind; intro str hstr
+      have hle := validated_le _ _ _ _ _ hstr
+      apply Hoare.liftE_bind; intro ctr _
+      apply Hoare.guardE_bind; intro _
+      apply Hoare.getW_bind; intro w2 hP2
+      obtain ⟨⟨hl2, hsd2, hg2, hss2⟩, hid2, _⟩ := hP2
+      have hne3 : dst1.id ≠ r.2.id := by rw [hid2]; exact fun e => hne2 e.symm
+      have htake : str ≠ 0 → str ≤ DecCoins.amountOf r.2.info.totalDelShares d' := fun _ => take_le_total hl2 hss2 hg2 hle
+      apply Hoare.guardE_bind; intro _
+      try dsimp only []
+      apply Hoare.liftE_bind; intro cvs _
+      refine Hoare.conseq (P' := fun w => SrcInv r.2 (del, r.2.id, d') srcDl (w.dels, w.vals) ∧ Sync dst1 w)
+        (Q' := fun _ w => L0 w) ?_ (fun w e => by subst e; exact ⟨⟨hl2, hss2, hg2⟩, hsd2⟩) (fun _ _ q => q)
+      apply Hoare.bind (R := fun _ w => (L (fun v2 d => - offAt r.2.id d' str v2 d) w ∧ Sync r.2 w) ∧ Sync dst1 w)
+      · exact Hoare.and
+          ((reduceDelegationShares_inv del r.2.id d' str srcDl r.2).conseq (fun w h => ⟨h.1, h.2.1, h.2.2, hle⟩) (fun _ _ q => q))
+          (reduceDelegationShares_sync dst1 del r.2.id d' str srcDl)
+      · intro _
+        apply Hoare.liftE_bind; intro dsc hdsc
+        obtain ⟨_, rfl⟩ := mkDecCoins_ok d' str dsc hdsc
+        apply Hoare.liftE_bind; intro vsc _
+        apply Hoare.bind (R := fun src2 w => (L0 w ∧ Sync src2 w ∧ src2.id = r.2.id) ∧ Sync dst1 w)
+        · refine Hoare.and ?_ (updateValidatorShares_sync dst1 r.2 _ vsc false hne3)
+          refine (updateValidatorShares_sub_inv _ r.2 d' str vsc htake).conseq (fun w h => h) (fun _ w q => ⟨?_, q.2.1, q.2.2⟩)
+          exact q.1.conv (fun v d => by omega)
+        · intro src2
+          -- the id of the stored source validator is needed to keep the destination apart
+          refine Hoare.conseq (P' := fun w => (L0 w ∧ Sync src2 w) ∧ Sync dst1 w ∧ src2.id = r.2.id) (Q' := fun _ w => L0 w) ?_
+            (fun w h => ⟨⟨h.1.1, h.1.2.1⟩, h.2, h.1.2.2⟩) (fun _ _ q => q)
+          constructor
+          intro w w' u hm hpre
+          obtain ⟨hA, hB, hidS⟩ := hpre
+          have hne4 : dst1.id ≠ src2.id := by rw [hidS]; exact hne3
+          revert hm
+          generalize hgen : (clearDustDelegation del src2 a >>= fun _ => _) = prog
+          intro hm
+          have hH : Hoare (fun w => (L0 w ∧ Sync src2 w) ∧ Sync dst1 w) prog (fun _ w => L0 w) := by
+            rw [← hgen]
+            apply Hoare.bind (Hoare.and (clearDustDelegation_inv del src2 a) (clearDustDelegation_sync dst1 del src2 a hne4)); intro _
+            apply Hoare.bind (R := fun nds w => Mid dst1 d' nds w)
+            · exact (upsert_inv del dst1 d' amt a).conseq (fun w h => ⟨h.1, h.2, trivial⟩) (fun _ _ q => q)
+            · intro nds
+              apply Hoare.liftE_bind; intro dsc2 hdsc2
+              obtain ⟨hn0, rfl⟩ := mkDecCoins_ok d' nds dsc2 hdsc2
+              apply Hoare.bind (R := fun _ w => L0 w)
+              · refine (updateValidatorShares_add_inv (offAt dst1.id d' nds) dst1 d' nds vsc).conseq
+                  (fun w h => ⟨h.1 hn0, h.2⟩) (fun _ w q => ?_)
+                exact q.1.conv (fun v d => by omega)
+              · intro _
+                apply Hoare.bind (Hoare.ofFrame (by dv_frame) (fun p => LedgerO (fun _ _ => 0) p.1 p.2)); intro _
+                exact Hoare.ofFrame (by dv_frame) (fun p => LedgerO (fun _ _ => 0) p.1 p.2)
+          exact hH.run w w' u hm ⟨hA, hB⟩
+
+/-- `GetAllianceValidator`: the returned in-memory validator is in step with the store (an empty record is created
+    for a validator seen for the first time); other in-memory validators stay in step -/
+theorem getAllianceValidator_inv (v : ValId) (X : List (DelKey × Delegation) × List (ValId × ValInfo) → Prop)
+    (hXv : ∀ p info, X p → AL.get p.2 v = none → X (p.1, AL.set p.2 v info)) :
+    Hoare (fun w => L0 w ∧ X (w.dels, w.vals)) (getAllianceValidator v)
+      (fun val w => L0 w ∧ Sync val w ∧ val.id = v ∧ X (w.dels, w.vals)) := by
+  unfold getAllianceValidator
+  apply Hoare.getW_bind; intro w0 hP
+  obtain ⟨hl, hx⟩ := hP
+  split
+  · exact Hoare.throwE _
+  · next sv _ =>
+    split
+    · next info hinfo =>
+      exact Hoare.pure _ (fun w e => by subst e; exact ⟨hl, ⟨info, hinfo, rfl⟩, rfl, hx⟩)
+    · next hnone =>
+      apply Hoare.bind (R := fun _ w => L0 w ∧ SyncL { id := v, sval := sv, info := ValInfo.empty } w.vals ∧ X (w.dels, w.vals))
+      · unfold setValInfo
+        refine Hoare.modifyW _ (fun w e => ?_)
+        subst e
+        refine ⟨?_, ⟨ValInfo.empty, by simp only [AL.get_set_eq], rfl⟩, hXv _ _ hx hnone⟩
+        unfold L0 L at *
+        refine (hl.setVal v ValInfo.empty DecCoins.sorted_nil).conv ?_
+        intro v2 d
+        by_cases e : v2 = v
+        · subst e
+          have : tdsL w.vals v2 d = 0 := by unfold tdsL; rw [hnone]
+          simp only [if_true, this]; rfl
+        · simp only [e, if_false]; omega
+      · intro _
+        exact Hoare.pure _ (fun w h => ⟨h.1, h.2.1, rfl, h.2.2⟩)
+
+/-- C03, user operations: a successful `MsgDelegate` keeps the delegator-share ledger -/
+theorem msgDelegate_ledger (del : Acct) (v : ValId) (d' : Denom) (amt : Int) :
+    Hoare L0 (msgDelegate del v d' amt) (fun _ w => L0 w) := by
+  unfold msgDelegate
+  apply Hoare.guardE_bind; intro _
+  apply Hoare.bind ((getAllianceValidator_inv v (fun _ => True) (fun _ _ _ _ => trivial)).conseq (fun w h => ⟨h, trivial⟩) (fun _ _ q => q)); intro val
+  exact (delegate_ledger del val d' amt).conseq (fun w h => ⟨h.1, h.2.1, trivial⟩) (fun _ _ q => q)
+
+theorem msgUndelegate_ledger (del : Acct) (v : ValId) (d' : Denom) (amt : Int) :
+    Hoare L0 (msgUndelegate del v d' amt) (fun _ w => L0 w) := by
+  unfold msgUndelegate
+  apply Hoare.guardE_bind; intro _
+  apply Hoare.bind ((getAllianceValidator_inv v (fun _ => True) (fun _ _ _ _ => trivial)).conseq (fun w h => ⟨h, trivial⟩) (fun _ _ q => q)); intro val
+  exact (undelegate_ledger del val d' amt).conseq (fun w h => ⟨h.1, h.2.1, trivial⟩) (fun _ _ q => q)
+
+theorem msgClaim_ledger (del : Acct) (v : ValId) (d' : Option Denom) :
+    Hoare L0 (msgClaim del v d') (fun _ w => L0 w) := by
+  unfold msgClaim
+  cases d' with
+  | none => exact Hoare.throwE _
+  | some dd =>
+    dsimp only []
+    apply Hoare.bind ((getAllianceValidator_inv v (fun _ => True) (fun _ _ _ _ => trivial)).conseq (fun w h => ⟨h, trivial⟩) (fun _ _ q => q)); intro val
+    apply Hoare.bind ((claimDelegationRewards_inv (fun _ _ => 0) del val dd (fun _ => True) (fun _ _ _ _ => trivial) (fun _ _ _ _ _ _ _ => trivial)).conseq
+      (fun w h => ⟨h.1, h.2.1, trivial⟩) (fun _ _ q => q)); intro r
+    exact Hoare.pure _ (fun w h => h.1.1)
+
+theorem msgRedelegate_ledger (del : Acct) (s t : ValId) (d' : Denom) (amt : Int) :
+    Hoare L0 (msgRedelegate del s t d' amt) (fun _ w => L0 w) := by
+  unfold msgRedelegate
+  apply Hoare.guardE_bind; intro _
+  apply Hoare.bind ((getAllianceValidator_inv s (fun _ => True) (fun _ _ _ _ => trivial)).conseq (fun w h => ⟨h, trivial⟩) (fun _ _ q => q)); intro sv
+  -- loading the destination keeps the source in step: a record is only created where none was
+  refine Hoare.conseq (P' := fun w => L0 w ∧ SyncL sv w.vals) (Q' := fun _ w => L0 w) ?_ (fun w h => ⟨h.1, h.2.1⟩) (fun _ _ q => q)
+  apply Hoare.bind (getAllianceValidator_inv t (fun p => SyncL sv p.2) (fun p info hx hnone => by
+    obtain ⟨i, hg, ht⟩ := hx
+    by_cases e : sv.id = t
+    · rw [e] at hg; rw [hg] at hnone; cases hnone
+    · exact ⟨i, by show AL.get (AL.set p.2 t info) sv.id = _; rw [AL.get_set_ne _ _ _ _ e]; exact hg, ht⟩)); intro tv
+  exact (redelegate_ledger del sv tv d' amt).conseq (fun w h => ⟨h.1, h.2.2.2, h.2.1⟩) (fun _ _ q => q)
+
+/-- C03: every user operation — delegate, undelegate, redelegate, claim — keeps, whether it succeeds or fails, the
+    delegator-share ledger: for every validator and denom the delegations' shares sum to the validator's recorded total
+    (with the records sorted, keyed, non-negative, and every validator's share coins strictly sorted) -/
+theorem user_step_keeps_ledger (op : Op) (w : World) (hl : L0 w)
+    (hop : match op with | .delegate .. | .undelegate .. | .redelegate .. | .claim .. => True | _ => False) :
+    L0 (step op w).2 := by
+  have key : ∀ (m : M Unit), Hoare L0 m (fun _ w => L0 w) → L0 (asTx m w).2 := by
+    intro m hm
+    rw [asTx_apply]
+    rcases hmw : m w with ⟨r, w1⟩
+    cases r with
+    | ok u => exact hm.run w w1 u hmw hl
+    | error e => exact hl
+  cases op with
+  | delegate del v d amt => exact key _ (msgDelegate_ledger del v d amt)
+  | undelegate del v d amt => exact key _ (msgUndelegate_ledger del v d amt)
+  | redelegate del s t d amt => exact key _ (msgRedelegate_ledger del s t d amt)
+  | claim del v d => exact key _ (msgClaim_ledger del v d)
+  | _ => exact absurd hop (by simp)
+
+/-! ## governance, end-of-block -/
+
+theorem Hoare.forEachM {γ : Type} {I : World → Prop} (f : γ → M Unit) (xs : List γ)
+    (h : ∀ x ∈ xs, Hoare I (f x) (fun _ w => I w)) : Hoare I (Alliance.forEachM f xs) (fun _ w => I w) := by
+  induction xs with
+  | nil => unfold Alliance.forEachM; exact Hoare.pure _ (fun w hw => hw)
+  | cons x t ih =>
+    unfold Alliance.forEachM
+    exact Hoare.bind (h x (List.mem_cons_self ..)) (fun _ => ih (fun y hy => h y (List.mem_cons_of_mem _ hy)))
+
+theorem Hoare.foldlM {γ σ : Type} {R : σ → World → Prop} (f : σ → γ → M σ) (xs : List γ) (init : σ)
+    (h : ∀ s, ∀ x ∈ xs, Hoare (R s) (f s x) (fun s' w => R s' w)) : Hoare (R init) (xs.foldlM f init) (fun s' w => R s' w) := by
+  induction xs generalizing init with
+  | nil => exact Hoare.pure _ (fun w hw => hw)
+  | cons x t ih =>
+    rw [List.foldlM_cons]
+    exact Hoare.bind (h init x (List.mem_cons_self ..)) (fun s => ih s (fun s' y hy => h s' y (List.mem_cons_of_mem _ hy)))
+
+theorem L0.frame {α} {m : M α} (h : FrameDV.Fr m) : Hoare L0 m (fun _ w => L0 w) :=
+  Hoare.ofFrame h (fun p => LedgerO (fun _ _ => 0) p.1 p.2)
+
+/-- all in-memory validators of a list are in step with the store -/
+def SyncAll (vs : List AVal) (p : List (DelKey × Delegation) × List (ValId × ValInfo)) : Prop := ∀ v ∈ vs, SyncL v p.2
+
+theorem syncAll_stable (vs : List AVal) (val : AVal) (hin : val ∈ vs) :
+    StableV val.id val.info.totalDelShares (SyncAll vs) := by
+  intro p info hx ht v hv
+  by_cases e : v.id = val.id
+  · obtain ⟨i2, hg2, ht2⟩ := hx val hin
+    obtain ⟨i, hg, htv⟩ := hx v hv
+    rw [e, hg2] at hg
+    injection hg with hg
+    refine ⟨info, by show AL.get (AL.set p.2 val.id info) v.id = _; rw [e, AL.get_set_eq], ?_⟩
+    rw [ht, ← ht2, hg, htv]
+  · exact syncL_set_other val.id info e (hx v hv)
+
+/-- one validator's pending rewards are indexed (history only): the ledger and every tracked in-memory validator stay -/
+theorem claimValidatorRewards_all (vs : List AVal) (val : AVal) (hin : val ∈ vs) :
+    Hoare (fun w => L0 w ∧ SyncAll vs (w.dels, w.vals)) (claimValidatorRewards val)
+      (fun _ w => L0 w ∧ SyncAll vs (w.dels, w.vals)) :=
+  (claimValidatorRewards_inv (fun _ _ => 0) val (SyncAll vs) (syncAll_stable vs val hin)).conseq
+    (fun w h => ⟨h.1, h.2 val hin, h.2⟩) (fun _ w q => ⟨q.1.1, q.1.2.2⟩)
+
+theorem settleAllValidators_ledger (asset : Asset) (c : Bool) (vals : List (ValId × ValInfo)) :
+    Hoare L0 (settleAllValidators asset c vals) (fun _ w => L0 w) := by
+  unfold settleAllValidators
+  split
+  · apply Hoare.bind
+    · apply Hoare.forEachM
+      intro kv _
+      apply Hoare.bind ((getAllianceValidator_inv kv.1 (fun _ => True) (fun _ _ _ _ => trivial)).conseq (fun w h => ⟨h, trivial⟩) (fun _ _ q => q)); intro validator
+      apply Hoare.bind ((claimValidatorRewards_inv (fun _ _ => 0) validator (fun _ => True) (fun _ _ _ _ => trivial)).conseq
+        (fun w h => ⟨h.1, h.2.1, trivial⟩) (fun _ w q => q.1.1)); intro v2
+      exact L0.frame (by dv_frame)
+    · intro _; exact L0.frame (by dv_frame)
+  · exact Hoare.pure _ (fun w h => h)
+
+theorem updateAllianceAsset_ledger (newAsset : Asset) : Hoare L0 (updateAllianceAsset newAsset) (fun _ w => L0 w) := by
+  unfold updateAllianceAsset
+  apply Hoare.getW_bind; intro w0 hP
+  apply Hoare.at_state hP
+  split
+  · exact Hoare.throwE _
+  · apply Hoare.bind (L0.frame (by dv_frame)); intro _
+    apply Hoare.bind (settleAllValidators_ledger _ _ _); intro _
+    apply Hoare.getW_bind; intro w1 hP1
+    apply Hoare.at_state hP1
+    exact L0.frame (by dv_frame)
+
+theorem rewardWeightChangeHook_go_ledger (rest acc : List Asset) :
+    Hoare L0 (rewardWeightChangeHook.go rest acc) (fun _ w => L0 w) := by
+  induction rest generalizing acc with
+  | nil => unfold rewardWeightChangeHook.go; exact Hoare.pure _ (fun w h => h)
+  | cons a r ih =>
+    unfold rewardWeightChangeHook.go
+    apply Hoare.getW_bind; intro w0 hP
+    apply Hoare.at_state hP
+    apply Hoare.ite
+    · intro _; exact ih _
+    · intro _
+      dsimp only []
+      split
+      · apply Hoare.bind (L0.frame (by dv_frame)); intro _
+        apply Hoare.bind (updateAllianceAsset_ledger _); intro _
+        exact ih _
+      · exact Hoare.panicE _
+
+theorem rewardWeightChangeHook_ledger (assets : List Asset) : Hoare L0 (rewardWeightChangeHook assets) (fun _ w => L0 w) := by
+  unfold rewardWeightChangeHook
+  exact rewardWeightChangeHook_go_ledger assets []
+
+abbrev LAll (vs : List AVal) : World → Prop := fun w => L0 w ∧ SyncAll vs (w.dels, w.vals)
+
+theorem LAll.frame {vs} {α} {m : M α} (h : FrameDV.Fr m) : Hoare (LAll vs) m (fun _ w => LAll vs w) :=
+  Hoare.ofFrame h (fun p => LedgerO (fun _ _ => 0) p.1 p.2 ∧ SyncAll vs p)
+
+/-- the rebalancer works on snapshots of all validators taken at its start; each is written back with only its reward
+    history changed, so the ledger holds throughout -/
+theorem rebalanceBondTokenWeights_ledger (assets : List Asset) :
+    Hoare L0 (rebalanceBondTokenWeights assets) (fun _ w => L0 w) := by
+  unfold rebalanceBondTokenWeights
+  apply Hoare.getW_bind; intro w0 hP
+  try dsimp only []
+  refine Hoare.conseq (P' := LAll []) (Q' := fun _ w => L0 w) ?_
+    (fun w e => by subst e; exact ⟨hP, fun v hv => by cases hv⟩) (fun _ _ q => q)
+  apply Hoare.bind (R := fun snaps w => LAll snaps w)
+  · apply Hoare.foldlM (R := fun acc w => LAll acc w)
+    intro acc v _
+    apply Hoare.bind (R := fun val w => LAll acc w ∧ Sync val w)
+    · refine (getAllianceValidator_inv v (SyncAll acc) ?_).conseq (fun w h => h) (fun val w q => ⟨⟨q.1, q.2.2.2⟩, q.2.1⟩)
+      intro p info hx hnone v' hv'
+      obtain ⟨i, hg, ht⟩ := hx v' hv'
+      by_cases e : v'.id = v
+      · rw [e] at hg; rw [hg] at hnone; cases hnone
+      · exact ⟨i, by show AL.get (AL.set p.2 v info) v'.id = _; rw [AL.get_set_ne _ _ _ _ e]; exact hg, ht⟩
+    · intro val
+      refine Hoare.pure _ (fun w h => ⟨h.1.1, ?_⟩)
+      intro v' hv'
+      rcases List.mem_append.mp hv' with h1 | h1
+      · exact h.1.2 v' h1
+      · rw [List.mem_singleton.mp h1]; exact h.2
+  · intro snaps
+    refine Hoare.conseq (P' := LAll snaps) (Q' := fun _ w => LAll snaps w) ?_ (fun w h => h) (fun _ w q => q.1)
+    apply Hoare.forEachM
+    intro validator hval
+    have hin : validator ∈ snaps := (List.mem_filter.mp hval).1
+    apply Hoare.getW_bind; intro w1 hP1
+    apply Hoare.at_state hP1
+    try dsimp only []
+    apply Hoare.bind (R := fun _ w => LAll snaps w)
+    · apply LAll.frame
+      apply FrameDV.foldlM
+      intro acc a
+      split
+      · exact FrameDV.bind (by dv_frame) (fun _ => FrameDV.pure _)
+      · try dsimp only []
+        split <;> exact FrameDV.pure _
+    · intro expected
+      apply Hoare.ite
+      · intro _
+        try dsimp only []
+        apply Hoare.ite
+        · intro _; exact Hoare.pure _ (fun w h => h)
+        · intro _
+          apply Hoare.bind (LAll.frame (by dv_frame)); intro _
+          apply Hoare.bind (claimValidatorRewards_all snaps validator hin); intro _
+          exact LAll.frame (by dv_frame)
+      · intro _
+        apply Hoare.ite
+        · intro _
+          try dsimp only []
+          apply Hoare.ite
+          · intro _; exact Hoare.pure _ (fun w h => h)
+          · intro _
+            apply Hoare.bind (LAll.frame (by dv_frame)); intro _
+            apply Hoare.bind (claimValidatorRewards_all snaps validator hin); intro _
+            apply Hoare.bind (LAll.frame (by dv_frame)); intro _
+            exact LAll.frame (by dv_frame)
+        · intro _; exact Hoare.pure _ (fun w h => h)
+
+theorem rebalanceHook_ledger (assets : List Asset) : Hoare L0 (rebalanceHook assets) (fun _ w => L0 w) := by
+  unfold rebalanceHook
+  apply Hoare.getW_bind; intro w0 hP
+  apply Hoare.at_state hP
+  apply Hoare.ite
+  · intro _
+    apply Hoare.bind (L0.frame (by apply FrameDV.modifyW; intro w; rfl)); intro _
+    exact rebalanceBondTokenWeights_ledger assets
+  · intro _; exact Hoare.pure _ (fun w h => h)
+
+/-- C03: a successful end-of-block keeps the delegator-share ledger -/
+theorem endBlocker_ledger : Hoare L0 endBlocker (fun _ w => L0 w) := by
+  unfold endBlocker
+  apply Hoare.bind (L0.frame (by dv_frame)); intro _
+  apply Hoare.bind (L0.frame (by dv_frame)); intro _
+  apply Hoare.getW_bind; intro w0 hP
+  apply Hoare.at_state hP
+  try dsimp only []
+  apply Hoare.bind (L0.frame (by dv_frame)); intro as1
+  apply Hoare.bind (L0.frame (by dv_frame)); intro as2
+  apply Hoare.bind (rewardWeightChangeHook_ledger as2); intro as3
+  exact rebalanceHook_ledger as3
+
+theorem msgUpdateAlliance_ledger (s : Signer) (f : AllianceFields) : Hoare L0 (msgUpdateAlliance s f) (fun _ w => L0 w) := by
+  unfold msgUpdateAlliance
+  apply Hoare.bind (L0.frame (by dv_frame)); intro _
+  apply Hoare.bind (L0.frame (FrameDV.requireSome _ _)); intro denom
+  apply Hoare.bind (L0.frame (FrameDV.requireSome _ _)); intro weight
+  apply Hoare.bind (L0.frame (by dv_frame)); intro _
+  apply Hoare.bind (L0.frame (FrameDV.requireSome _ _)); intro takeRate
+  apply Hoare.bind (L0.frame (by dv_frame)); intro _
+  apply Hoare.bind (L0.frame (FrameDV.requireSomeP _)); intro changeRate
+  apply Hoare.bind (L0.frame (by dv_frame)); intro _
+  apply Hoare.bind (L0.frame (by dv_frame)); intro _
+  apply Hoare.bind (L0.frame (by dv_frame)); intro _
+  apply Hoare.getW_bind; intro w0 hP
+  apply Hoare.at_state hP
+  apply Hoare.bind (L0.frame (FrameDV.requireSome _ _)); intro asset
+  apply Hoare.bind (L0.frame (FrameDV.requireSomeP _)); intro wmin
+  apply Hoare.bind (L0.frame (by dv_frame)); intro _
+  apply Hoare.bind (L0.frame (FrameDV.requireSomeP _)); intro wmax
+  apply Hoare.bind (L0.frame (by dv_frame)); intro _
+  exact updateAllianceAsset_ledger _
+
+/-! ## the slash callback -/
+
+/-- asset records are stored under their own denom -/
+def AssetsKeyed (w : World) : Prop := ∀ p ∈ w.assets, p.2.denom = p.1
+
+theorem Hoare.ofAFrame {α} {m : M α} (h : AFrame m) (K : List (Denom × Asset) → Prop) :
+    Hoare (fun w => K w.assets) m (fun _ w => K w.assets) := by
+  constructor
+  intro w w' a hm hw
+  have := h.frame w
+  rw [hm] at this
+  show K w'.assets
+  rw [this]; exact hw
+
+theorem cappedShares_le (dlShares : Dec) (tokens : Int) (info : ValInfo) (a : Asset) (s : Dec)
+    (h : cappedShares dlShares tokens info a = .ok s) : s ≤ dlShares := by
+  unfold cappedShares at h
+  cases hv : validateDelegatedAmount dlShares tokens info a with
+  | ok s0 =>
+    rw [hv] at h
+    injection h with h; subst h
+    exact validated_le _ _ _ _ _ hv
+  | error e =>
+    rw [hv] at h
+    split at h
+    · next heq => cases heq
+    · injection h with h; subst h; exact Int.le_refl _
+    · cases h
+
+theorem decCoinsSub_single_spec (tds : DecCoins) (d' : Denom) (x : Dec) (r : DecCoins)
+    (h : decCoinsSub tds (DecCoins.single d' x) = .ok r) :
+    (∀ d, DecCoins.sumOf r d = DecCoins.sumOf tds d - (if d' = d then x else 0)) ∧ (DecCoins.Sorted tds → DecCoins.Sorted r) :=
+  ⟨fun d => by rw [decCoinsSub_sum _ _ _ h, DecCoins.sumOf_single], fun hs => decCoinsSub_sorted _ _ _ h hs (DecCoins.sorted_single d' x)⟩
+
+/-- ledger, a tracked validator, and keyed assets: the assertion carried through one iteration of `slashRedelegations` -/
+def SlashInv (val : AVal) (w : World) : Prop := (L0 w ∧ Sync val w) ∧ AssetsKeyed w
+
+theorem slashRedelegations_ledger (v : ValId) (f : Dec) :
+    Hoare (fun w => L0 w ∧ AssetsKeyed w) (slashRedelegations v f) (fun _ w => L0 w ∧ AssetsKeyed w) := by
+  unfold slashRedelegations
+  apply Hoare.getW_bind; intro w0 hP
+  apply Hoare.at_state (P := fun w => L0 w ∧ AssetsKeyed w) hP
+  dsimp only []
+  apply Hoare.forEachM
+  intro k _
+  apply Hoare.getW_bind; intro w1 hP1
+  apply Hoare.at_state (P := fun w => L0 w ∧ AssetsKeyed w) hP1
+  obtain ⟨kv, kt, kd, kdst, kdel⟩ := k
+  dsimp only []
+  apply Hoare.ite
+  · intro _; exact Hoare.pure _ (fun w h => h)
+  · intro _
+    split
+    · exact Hoare.throwE _
+    · next r _ =>
+      apply Hoare.bind (R := fun dstVal w => SlashInv dstVal w ∧ dstVal.id = r.dst)
+      · refine (Hoare.and ((getAllianceValidator_inv r.dst (fun _ => True) (fun _ _ _ _ => trivial))) (Hoare.ofAFrame (by aframe) (fun as => ∀ p ∈ as, p.2.denom = p.1))).conseq
+          (fun w h => ⟨⟨h.1, trivial⟩, h.2⟩) (fun _ w q => ⟨⟨⟨q.1.1, q.1.2.1⟩, q.2⟩, q.1.2.2.1⟩)
+      · intro dstVal
+        apply Hoare.ite
+        · intro _; exact Hoare.pure _ (fun w h => ⟨h.1.1.1, h.1.2⟩)
+        · intro _
+          apply Hoare.bind (R := fun res w => SlashInv res.2 w ∧ res.2.id = r.dst)
+          · refine (Hoare.and (claimDelegationRewards_inv (fun _ _ => 0) r.del dstVal r.denom (fun _ => True) (fun _ _ _ _ => trivial)
+                (fun _ _ _ _ _ _ _ => trivial)) (Hoare.ofAFrame (by aframe) (fun as => (∀ p ∈ as, p.2.denom = p.1) ∧ dstVal.id = r.dst))).conseq
+              (fun w h => ⟨⟨h.1.1.1, h.1.1.2, trivial⟩, h.1.2, h.2⟩)
+              (fun _ w q => ⟨⟨⟨q.1.1.1, q.1.1.2.1⟩, q.2.1⟩, q.1.2.1.trans q.2.2⟩)
+          · intro res
+            apply Hoare.getW_bind; intro w2 hP2
+            obtain ⟨⟨⟨hl2, hs2⟩, hak2⟩, hid2⟩ := hP2
+            split
+            · exact Hoare.pure _ (fun w e => by subst e; exact ⟨hl2, hak2⟩)
+            · next dl hdl =>
+              split
+              · exact Hoare.pure _ (fun w e => by subst e; exact ⟨hl2, hak2⟩)
+              · next a ha =>
+                have haden : a.denom = r.denom := hak2 (r.denom, a) (AL.get_some_mem _ _ _ ha)
+                have hkey := L.key_of_get hl2 hdl
+                injection hkey with k1 k23
+                injection k23 with k2 k3
+                apply Hoare.liftE_bind; intro sts hsts
+                have hle := cappedShares_le _ _ _ _ _ hsts
+                apply Hoare.liftE_bind; intro sc hsc
+                obtain ⟨hs0, rfl⟩ := mkDecCoins_ok a.denom sts sc hsc
+                apply Hoare.liftE_bind; intro tds' htds
+                obtain ⟨hsum, hsort⟩ := decCoinsSub_single_spec _ _ _ _ htds
+                apply Hoare.bind (R := fun _ w => (L (fun v2 d => offAt res.2.id a.denom sts v2 d) w ∧ AL.get w.dels (r.del, r.dst, r.denom) = some dl) ∧ AssetsKeyed w)
+                · unfold setValidator setValInfo
+                  refine Hoare.modifyW _ (fun w e => ?_)
+                  subst e
+                  refine ⟨⟨?_, hdl⟩, hak2⟩
+                  have := L_setValidator (off := fun _ _ => 0) (val := res.2)
+                    { res.2.info with totalDelShares := tds' } a.denom (-sts) hl2 hs2 (hsort (sorted_of_sync hl2 hs2))
+                    (fun d => by show DecCoins.sumOf tds' d = _; rw [hsum d]; split <;> omega)
+                  refine this.conv ?_
+                  intro v2 d
+                  unfold offAt
+                  have e : (v2 = res.2.id ∧ a.denom = d) ↔ (v2 = res.2.id ∧ d = a.denom) := ⟨fun ⟨p, q⟩ => ⟨p, q.symm⟩, fun ⟨p, q⟩ => ⟨p, q.symm⟩⟩
+                  simp only [e]
+                  split <;> omega
+                · intro _
+                  unfold setDelegation
+                  refine Hoare.modifyW _ (fun w h => ?_)
+                  obtain ⟨⟨hl3, hg3⟩, hak3⟩ := h
+                  refine ⟨?_, hak3⟩
+                  unfold L0 L at *
+                  have hn : 0 ≤ ({ dl with shares := dl.shares - sts } : Delegation).shares := by
+                    show 0 ≤ dl.shares - sts
+                    unfold Dec at *; omega
+                  refine (hl3.setDel { dl with shares := dl.shares - sts } hn).conv ?_
+                  intro v2 d
+                  have hg4 : AL.get w.dels (dl.del, dl.val, dl.denom) = some dl := by rw [← k1, ← k2, ← k3]; exact hg3
+                  show offAt res.2.id a.denom sts v2 d + shareOf v2 d _ - oldShare w.dels (dl.del, dl.val, dl.denom) v2 d = 0
+                  unfold oldShare
+                  rw [hg4]
+                  unfold offAt shareOf
+                  simp only []
+                  rw [hid2, haden, ← k2, ← k3]
+                  have e : (r.dst = v2 ∧ r.denom = d) ↔ (v2 = r.dst ∧ d = r.denom) := ⟨fun ⟨p, q⟩ => ⟨p.symm, q.symm⟩, fun ⟨p, q⟩ => ⟨p.symm, q.symm⟩⟩
+                  simp only [e]
+                  split <;> (unfold Dec at *; omega)
+
+abbrev LK : World → Prop := fun w => L0 w ∧ AssetsKeyed w
+
+theorem setAsset_keyed (a : Asset) : Hoare AssetsKeyed (setAsset a) (fun _ w => AssetsKeyed w) := by
+  unfold setAsset
+  refine Hoare.modifyW _ (fun w h => ?_)
+  intro p hp
+  rcases AL.mem_set _ _ _ _ hp with e | e
+  · rw [e]
+  · exact h p e
+
+/-- C03: the slash callback, when it succeeds, keeps the delegator-share ledger (asset records keyed by their denom) -/
+theorem slashValidator_ledger (v : ValId) (f : Dec) : Hoare LK (slashValidator v f) (fun _ w => LK w) := by
+  unfold slashValidator
+  apply Hoare.bind (Hoare.and (L0.frame (by dv_frame)) (Hoare.ofAFrame (by aframe) (fun as => ∀ p ∈ as, p.2.denom = p.1))); intro _
+  apply Hoare.bind (R := fun val w => SlashInv val w)
+  · exact (Hoare.and (getAllianceValidator_inv v (fun _ => True) (fun _ _ _ _ => trivial)) (Hoare.ofAFrame (by aframe) (fun as => ∀ p ∈ as, p.2.denom = p.1))).conseq
+      (fun w h => ⟨⟨h.1, trivial⟩, h.2⟩) (fun _ w q => ⟨⟨q.1.1, q.1.2.1⟩, q.2⟩)
+  · intro val
+    apply Hoare.bind (R := fun _ w => SlashInv val w)
+    · apply Hoare.foldlM (R := fun _ w => SlashInv val w)
+      intro acc share _
+      dsimp only []
+      apply Hoare.liftE_bind; intro after _
+      apply Hoare.getW_bind; intro w1 hP1
+      apply Hoare.at_state (P := SlashInv val) hP1
+      split
+      · exact Hoare.throwE _
+      · apply Hoare.bind (R := fun _ w => SlashInv val w)
+        · exact (Hoare.and (Hoare.ofFrame (by dv_frame) (fun p => LedgerO (fun _ _ => 0) p.1 p.2 ∧ SyncL val p.2)) (setAsset_keyed _)).conseq
+            (fun w h => h) (fun _ _ q => q)
+        · intro _; exact Hoare.pure _ (fun w h => h)
+    · intro slashed
+      apply Hoare.bind (R := fun _ w => LK w)
+      · unfold setValidator setValInfo
+        refine Hoare.modifyW _ (fun w h => ?_)
+        obtain ⟨⟨hl, hs⟩, hak⟩ := h
+        refine ⟨?_, hak⟩
+        have := L_setValidator (off := fun _ _ => 0) (val := val) { val.info with valShares := slashed } 0 0 hl hs
+          (sorted_of_sync hl hs) (fun d => by simp)
+        exact this.conv (fun v2 d => by simp)
+      · intro _
+        apply Hoare.bind (slashRedelegations_ledger v f); intro _
+        exact Hoare.and (L0.frame (by dv_frame)) (Hoare.ofAFrame (by aframe) (fun as => ∀ p ∈ as, p.2.denom = p.1))
+
+theorem beforeValidatorSlashed_ledger (v : ValId) (f : Dec) : Hoare LK (beforeValidatorSlashed v f) (fun _ w => LK w) := by
+  unfold beforeValidatorSlashed
+  apply Hoare.bind (slashValidator_ledger v f); intro _
+  exact Hoare.and (L0.frame (by dv_frame)) (Hoare.ofAFrame (by aframe) (fun as => ∀ p ∈ as, p.2.denom = p.1))
 
 end Alliance
